@@ -291,10 +291,8 @@ def Inv : Kind → List Nat → Prop
   | .odd, a => WF a ∧ OddV a
 
 /-- Wrapper values obtainable through the modelled producers (a `Limb` wrapper is the one-limb list).
-    EXCLUDED, because they break the invariant on the unchanged tree (negative theorems in Props/C12):
-    `oddLimbDefault`, `oddDefault`, `oddBoxedDefault` (derived `Default for Odd`) and
-    `nzLimbZeroize`, `wrapZeroize` (`Zeroize`).  The two byte-order defects (`oddFromLeHex`,
-    `nzFromLeByteArray`) ARE included: they return a wrong value, but never an invalid one. -/
+    EXCLUDED, because they break the invariant (negative theorem `wrapZeroize_invalid` in Props/C12,
+    recorded finding C12-zeroize): `nzLimbZeroize`, `wrapZeroize` (`Zeroize`). -/
 inductive Produced : Kind → List Nat → Prop
   -- NonZero<Limb>
   | nzLimbNew {x y : Nat} : x < B → nzLimbNew x = .ok y → Produced .nz [y]
@@ -340,6 +338,9 @@ inductive Produced : Kind → List Nat → Prop
   | nzSame {a v : List Nat} : Produced .nz a → wrapSame a = .ok v → Produced .nz v
   | oddAsNzRef {a v : List Nat} : Produced .odd a → oddAsNzRef a = .ok v → Produced .nz v
   -- Odd<Uint>, Odd<Int>, Odd<BoxedUint>
+  | oddLimbDefault {y : Nat} : oddLimbDefault = .ok y → Produced .odd [y]
+  | oddDefault {n : Nat} {v : List Nat} : n ≠ 0 → oddDefault n = .ok v → Produced .odd v
+  | oddBoxedDefault {v : List Nat} : oddBoxedDefault = .ok v → Produced .odd v
   | oddNew {a v : List Nat} : WF a → oddNew a = .ok v → Produced .odd v
   | uintToOdd {a v : List Nat} : WF a → uintToOdd a = .ok v → Produced .odd v
   | uintToOddExpect {a v : List Nat} : WF a → expectRes (uintToOdd a) = .ok v → Produced .odd v
